@@ -123,3 +123,25 @@ Proof.
   split; [exact ex_t_ok|]. split; [exact ex_t_perm_ok|]. split; [exact ex_fields_perm|].
   split; [vm_compute; reflexivity|]. eexists. split; vm_compute; reflexivity.
 Qed.
+
+(* ... and so is the stored row: two traces of the same function whose argument dicts list the same names in any
+   insertion order, with field-permuted argument / return / yield types, give the same CallTraceRow (module,
+   qualname and the three JSON values), hence the same stored text and one row after the store's de-duplication *)
+Theorem row_structural :
+  forall (cname : cls -> string * string) (fname : fid -> string * string) (site : string)
+         (env : string -> string -> lookup) (hidden : string -> option cls) (tr1 tr2 : trace),
+    ok_trace cname fname env hidden tr1 -> ok_trace cname fname env hidden tr2 -> trace_perm tr1 tr2 ->
+    from_trace cname fname site tr1 = from_trace cname fname site tr2.
+Proof. exact from_trace_structural. Qed.
+Print Assumptions row_structural.
+
+Example ex_row_structural :
+  ok_trace ex_cn ex_fn ex_ev ex_hd ex_trace /\ ok_trace ex_cn ex_fn ex_ev ex_hd ex_trace_perm
+  /\ trace_perm ex_trace ex_trace_perm
+  /\ tr_args ex_trace <> tr_args ex_trace_perm
+  /\ exists r, from_trace ex_cn ex_fn "monkeytype.typing" ex_trace = Ok r
+               /\ from_trace ex_cn ex_fn "monkeytype.typing" ex_trace_perm = Ok r.
+Proof.
+  split; [exact ex_trace_ok|]. split; [exact ex_trace_perm_ok|]. split; [exact ex_trace_perm_rel|].
+  split; [vm_compute; discriminate|]. eexists. split; vm_compute; reflexivity.
+Qed.
